@@ -29,6 +29,7 @@ type workerReq struct {
 	WantSc bool            `json:"want_sc,omitempty"`
 	Sc     json.RawMessage `json:"sc,omitempty"`
 	Warm   []IsoJob        `json:"warm,omitempty"` // op "multi": executed first, results discarded
+	WantLog bool           `json:"want_log,omitempty"`
 }
 
 // IsoJob names a generated scenario by batch index and seed.
@@ -90,7 +91,12 @@ func WorkerMain(id string) {
 			}
 			fmt.Fprintf(out, "B %d\n", req.Seed)
 			out.Flush()
+			KeepOutcomeLog, OutcomeLog = req.WantLog, nil
 			c.Exec(sc, res)
+			if req.WantLog {
+				res.Log = OutcomeLog
+			}
+			KeepOutcomeLog, OutcomeLog = false, nil
 			rc.collect(res)
 			if req.WantSc || len(res.Violations) > 0 {
 				res.Scenario = sc
@@ -709,7 +715,8 @@ func Supervise(c *Check, o Opts) int {
 			if got, ok := runIso(c, raceDir, spec, 5*watchdog); ok && got != spec.ExpectDigest {
 				spec = minimiseIso(c, raceDir, spec, watchdog)
 				sc := MustJSON(spec)
-				addFound(found, Violation{Sig: "isolation:outcome-depends-on-earlier-evaluations", Msg: fmt.Sprintf("scenario (seed %d) produces outcome log %s when it is the first thing a process executes and %s after %d other scenario(s) ran in the same process: package-level state lets unrelated VMs' earlier evaluations change its results", seed, spec.ExpectDigest, got, len(spec.Warm))}, seed, sc)
+				diff := isoDiff(c, raceDir, spec, 5*watchdog)
+				addFound(found, Violation{Sig: "isolation:outcome-depends-on-earlier-evaluations", Msg: diffMsg(diff) + fmt.Sprintf("scenario (seed %d) produces outcome log %s when it is the first thing a process executes and %s after %d other scenario(s) ran in the same process: package-level state lets unrelated VMs' earlier evaluations change its results", seed, spec.ExpectDigest, got, len(spec.Warm))}, seed, sc)
 				isoSpecs[seed] = spec
 				isoFound = true
 			} else {
@@ -865,16 +872,55 @@ type ReplayFile struct {
 
 // runIso executes warm-ups then the main scenario in one fresh process and returns the main digest.
 func runIso(c *Check, raceDir string, spec IsoSpec, watchdog time.Duration) (string, bool) {
+	d, _, ok := runIsoLog(c, raceDir, spec, watchdog, false)
+	return d, ok
+}
+
+func runIsoLog(c *Check, raceDir string, spec IsoSpec, watchdog time.Duration, wantLog bool) (string, []string, bool) {
 	p, err := spawn(c, raceDir)
 	if err != nil {
-		return "", false
+		return "", nil, false
 	}
 	defer p.kill()
-	oc := p.call(workerReq{Op: "multi", Warm: spec.Warm, Seed: spec.Main.Seed, Idx: spec.Main.Idx, Tier: spec.Tier}, watchdog)
+	oc := p.call(workerReq{Op: "multi", Warm: spec.Warm, Seed: spec.Main.Seed, Idx: spec.Main.Idx, Tier: spec.Tier, WantLog: wantLog}, watchdog)
 	if oc.died {
-		return "", false
+		return "", nil, false
 	}
-	return oc.res.Digest, true
+	return oc.res.Digest, oc.res.Log, true
+}
+
+// isoDiff shows the first outcome-log entry in which the two situations differ.
+func isoDiff(c *Check, raceDir string, spec IsoSpec, watchdog time.Duration) string {
+	_, warm, ok1 := runIsoLog(c, raceDir, spec, watchdog, true)
+	cold := spec
+	cold.Warm = nil
+	_, fresh, ok2 := runIsoLog(c, raceDir, cold, watchdog, true)
+	if !ok1 || !ok2 {
+		return ""
+	}
+	for i := 0; i < len(warm) || i < len(fresh); i++ {
+		var a, b string
+		if i < len(fresh) {
+			a = fresh[i]
+		}
+		if i < len(warm) {
+			b = warm[i]
+		}
+		if a != b {
+			clean := func(s string) string {
+				return trunc(strings.NewReplacer("\x1f", " | ", "\x1e", " ; ").Replace(s), 700)
+			}
+			return fmt.Sprintf("\n  first differing outcome-log entry (#%d):\n    first in a fresh process: %s\n    after the warm-up:        %s", i, clean(a), clean(b))
+		}
+	}
+	return ""
+}
+
+func diffMsg(d string) string {
+	if d == "" {
+		return ""
+	}
+	return strings.TrimPrefix(d, "\n") + "\n  "
 }
 
 // minimiseIso shrinks the warm-up list while the main scenario's digest still differs.
